@@ -329,6 +329,38 @@ def curated():
         'a': T(**{'on-success': ['c']}),
         'b': T(**{'on-success': ['c']}),
         'c': T()})
+    P.update(cycles())
+    return P
+
+
+def cycles():
+    """Bounded cycles: a guarded back edge taken exactly once (the guard
+    reads a counter published inside the loop)."""
+    P = {}
+    P['cyc_seq'] = direct(
+        {'s': T(**{'on-success': ['a']}),
+         'a': T(publish={'v': ['inc', 'v']}, **{'on-success': ['b']}),
+         'b': T(**{'on-success': [['a', ['eq', 'v', 1]]]})},
+        input={'v': 0}, output={'v': ['var', 'v']})
+    P['cyc_self'] = direct(
+        {'s': T(**{'on-success': ['a']}),
+         'a': T(publish={'v': ['inc', 'v']},
+                **{'on-success': [['a', ['eq', 'v', 1]], 'b']}),
+         'b': T()},
+        input={'v': 0}, output={'v': ['var', 'v']})
+    P['cyc_fork'] = direct(
+        {'s': T(**{'on-success': ['a', 'c']}),
+         'a': T(publish={'v': ['inc', 'v']}, **{'on-success': ['b']}),
+         'b': T(**{'on-success': [['a', ['eq', 'v', 1]]]}),
+         'c': T(publish={'w': ['lit', 5]})},
+        input={'v': 0})
+    P['cyc_on_error'] = direct(
+        {'s': T(**{'on-success': ['a']}),
+         'a': T(publish={'v': ['inc', 'v']},
+                **{'on-success': ['b'], 'on-error': ['h']}),
+         'b': T(**{'on-success': [['a', ['eq', 'v', 1]]]}),
+         'h': T()},
+        input={'v': 0}, output={'v': ['var', 'v']})
     return P
 
 
